@@ -506,3 +506,90 @@ func init() {
 		},
 	})
 }
+
+func init() {
+	register(&Rule{
+		Name: "pseudo-headers-once", Props: []string{"C20", "C01"}, Engine: "AST", Floor: 9,
+		Doc: "a request's pseudo-header fields: each of :method, :path, :scheme and :authority is accepted at most once per request (its seen-mark is tested, rejecting with a PROTOCOL_ERROR stream error through rejectBlock, before it is set) and reaches the fasthttp request where the handler looks for it (method, request URI, scheme, Host both as the request's host and as a header field); any other pseudo-header is rejected the same way (RFC 7540 8.1.2.1, 8.1.2.3)",
+		Run: func(p *Prog, r *Out) {
+			fd := p.decl("(*serverConn).handleHeaderFrame")
+			if fd == nil {
+				r.undecided("handleHeaderFrame", "?", "no longer resolves")
+				return
+			}
+			r.fn("(*serverConn).handleHeaderFrame")
+			type spec struct {
+				name, mark string
+				stores      []string
+			}
+			specs := map[string]spec{
+				"bytes.Equal(k,StringMethod)":    {":method", "strm.pseudoMethod", []string{"req.Header.SetMethodBytes(v)"}},
+				"bytes.Equal(k,StringPath)":      {":path", "strm.pseudoPath", []string{"strm.path=append(strm.path[:0],v...)", "req.Header.SetRequestURIBytes(v)"}},
+				"bytes.Equal(k,StringScheme)":    {":scheme", "strm.pseudoScheme", []string{"strm.scheme=append(strm.scheme[:0],v...)"}},
+				"bytes.Equal(k,StringAuthority)": {":authority", "strm.pseudoAuthority", []string{"req.Header.SetHostBytes(v)", "req.Header.AddBytesV(\"Host\",v)"}},
+			}
+			seen := map[string]bool{}
+			defReject := false
+			ast.Inspect(fd.Body, func(n ast.Node) bool {
+				ifs, ok := n.(*ast.IfStmt)
+				if !ok || squash(p.text(ifs.Cond)) != "hf.IsPseudo()" {
+					return true
+				}
+				for _, st := range ifs.Body.List {
+					sw, isSw := st.(*ast.SwitchStmt)
+					if !isSw || sw.Tag != nil {
+						continue
+					}
+					for _, c := range sw.Body.List {
+						cc := c.(*ast.CaseClause)
+						if cc.List == nil {
+							if res := retResults(cc.Body[len(cc.Body)-1]); len(res) == 1 {
+								if cl, code, okE := p.errorCall(res[0]); okE && cl == "Reset" && code == 1 {
+									defReject = true
+								}
+							}
+							continue
+						}
+						sp, known := specs[squash(p.text(cc.List[0]))]
+						if !known || len(cc.List) != 1 {
+							continue
+						}
+						seen[sp.name] = true
+						t := stmtTexts(p, cc.Body)
+						once := false
+						if len(cc.Body) >= 2 {
+							if g, isIf := cc.Body[0].(*ast.IfStmt); isIf && squash(p.text(g.Cond)) == sp.mark && g.Else == nil {
+								if res := firstReturn(g.Body); len(res) == 1 {
+									if cl, code, okE := p.errorCall(res[0]); okE && cl == "Reset" && code == 1 {
+										once = len(t) > 1 && t[1] == sp.mark+"=true"
+									}
+								}
+							}
+						}
+						r.check(once, sp.name+" is accepted once", p.pos(cc.Pos()), "if "+sp.mark+" { reject (stream error PROTOCOL_ERROR) }; "+sp.mark+" = true", "a second "+sp.name+" pseudo-header is no longer turned away before the first is overwritten: a request that says two different things about itself is malformed (RFC 7540 8.1.2.3), and an intermediary and this server may each believe a different one")
+						okStore := true
+						for _, w := range sp.stores {
+							f := false
+							for _, x := range t {
+								if x == w {
+									f = true
+								}
+							}
+							if !f {
+								okStore = false
+							}
+						}
+						r.check(okStore, sp.name+" reaches the request", p.pos(cc.Pos()), strings.Join(sp.stores, "; "), "the value of "+sp.name+" no longer reaches the fasthttp request in every place a handler reads it from ("+strings.Join(sp.stores, "; ")+")")
+					}
+				}
+				return true
+			})
+			for _, sp := range specs {
+				if !seen[sp.name] {
+					r.bad(sp.name+" is accepted once", p.pos(fd.Pos()), "no case for "+sp.name+" in the pseudo-header switch of handleHeaderFrame")
+				}
+			}
+			r.check(defReject, "any other pseudo-header is rejected", p.pos(fd.Pos()), "default: reject (stream error PROTOCOL_ERROR)", "a pseudo-header that is not one of the four request pseudo-headers (:status, say) is no longer a stream error")
+		},
+	})
+}
